@@ -272,10 +272,11 @@ class Server(Acceptor):
         while self.axes:
             cs, ca = self.axes.popleft()
             if ca != cs.getpeername() or self.eha[1] != cs.getsockname()[1]: # only port on eha
+                emsg = ("Accepted socket host addresses malformed for "
+                        "peer. ca {0} != {1} or ha port {2} != {3}\n"
+                        "".format(ca, cs.getpeername(), self.eha, cs.getsockname()))
                 cs.close()  # not kept so close it
-                raise ValueError("Accepted socket host addresses malformed for "
-                                 "peer. ca {0} != {1} or ha port {2} != {3}\n"
-                                 "".format(ca, cs.getpeername(), self.eha, cs.getsockname()))
+                raise ValueError(emsg)
             remoter = Remoter(tymth=self.tymth,
                               ha=cs.getsockname(),
                               ca=ca,
@@ -551,10 +552,11 @@ class ServerTls(Server):
         while self.axes:
             cs, ca = self.axes.popleft()
             if ca != cs.getpeername() or self.eha[1] != cs.getsockname()[1]: # only port on eha
+                emsg = ("Accepted socket host addresses malformed for "
+                        "peer. ca {0} != {1} or ha port {2} != {3}\n"
+                        "".format(ca, cs.getpeername(), self.eha, cs.getsockname()))
                 cs.close()  # not kept so close it
-                raise ValueError("Accepted socket host addresses malformed for "
-                                 "peer. ca {0} != {1} or ha port {2} != {3}\n"
-                                 "".format(ca, cs.getpeername(), self.eha, cs.getsockname()))
+                raise ValueError(emsg)
             remoter = RemoterTls(tymth=self.tymth,
                                  ha=cs.getsockname(),
                                  ca=ca,
